@@ -27,7 +27,7 @@ schedule = {
              {"at": units, "do": "submit", "q": k>=2, "con": bool, "reply": {...}|None} |   another (plain) request on the
                                                                                   same context, same endpoint
              {"at": units, "do": "burn", "n": N}],       N tokens are reserved and released (N short requests came and went)
-  "fetch":  [{"delay": units, "more": bool, "plen": n, "ty": "ACK"|"NON"|"CON"}, ...],
+  "fetch":  [{"delay": units, "more": bool, "plen": n, "ty": "ACK"|"NON"|"CON"} | None (never answered), ...],
   "fetch_default": plan | None,    for block requests beyond the list (None: never answered; default: at once)
   "horizon": units | None
 }
